@@ -299,6 +299,26 @@ func concBody(x *Exec, raw json.RawMessage) {
 		x.Count("swept-checked")
 	}
 	if has(p.Oracles, "refresh-readers") {
+		// reads of fresh entries trigger nothing: the clock does not move in these scenarios, so a value that a
+		// reload has just produced can never itself be due for a reload
+		explicitRefresh := false
+		for _, rs := range recs {
+			for _, rc := range rs {
+				if f := opFields(rc.op); f[0] == "refresh" || f[0] == "bulkrefresh" {
+					explicitRefresh = true // an explicit Refresh reloads a fresh entry by design
+				}
+			}
+		}
+		for _, a := range r.Loads {
+			for _, b := range r.Loads {
+				if explicitRefresh || b.Kind != "reload" || len(b.Olds) == 0 || a.Enter >= b.Enter || len(a.Keys) == 0 || a.Keys[0] != b.Keys[0] {
+					continue
+				}
+				if v, ok := a.Out[a.Keys[0]]; ok && a.Err == "" && v == b.Olds[0] {
+					x.Fail("reload-of-fresh-entry", "Get@"+p.Label, "a reload of key %d was started with old value %d, which a reload had produced just before (the clock did not move): the swapped-in entry was observed with the stale refresh time", b.Keys[0], v)
+				}
+			}
+		}
 		for _, lc := range r.Loads {
 			if lc.Kind != "reload" || len(lc.Olds) == 0 {
 				continue
@@ -311,14 +331,51 @@ func concBody(x *Exec, raw json.RawMessage) {
 					}
 					if rc.ret < lc.Exit && rc.call > lc.Enter {
 						x.Count("reads-during-reload")
-						if !rc.res.OK || rc.res.Val != lc.Olds[0] {
-							x.Fail("read-during-reload", opName(rc.op)+"@"+p.Label, "%q ran entirely while the reload of key %d was inside its loader and returned (%d,%v) instead of the old value %d", rc.op, lc.Keys[0], rc.res.Val, rc.res.OK, lc.Olds[0])
+						// while the reload is in its loader readers keep getting a cached value, never the one being loaded
+						// (the cached value need not be the flight's own old value: a reload that was handed to the
+						// executor by an earlier stale read may run after another reload has already swapped the entry)
+						if v, produced := lc.Out[lc.Keys[0]]; !rc.res.OK || produced && rc.res.Val == v {
+							x.Fail("read-during-reload", opName(rc.op)+"@"+p.Label, "%q ran entirely while the reload of key %d was inside its loader and returned (%d,%v): readers must keep getting the cached value (flight's old value %d)", rc.op, lc.Keys[0], rc.res.Val, rc.res.OK, lc.Olds[0])
 						}
 					}
 					// the read that triggered the reload returns the value cached at that moment
 					if f[0] == "load" && rc.tid == lc.Thread && rc.call < lc.Enter && lc.Exit < rc.ret && (!rc.res.OK || rc.res.Val != lc.Olds[0]) {
 						x.Fail("stale-read-returned-reloaded", opName(rc.op)+"@"+p.Label, "%q triggered the reload and returned (%d,%v) instead of the cached value %d", rc.op, rc.res.Val, rc.res.OK, lc.Olds[0])
 					}
+				}
+			}
+		}
+	}
+	if has(p.Oracles, "expired-during-load") {
+		// the scenario's key 1 is expired and unswept for the whole run; only a completed load may make it visible
+		for _, rs := range recs {
+			for _, rc := range rs {
+				f := opFields(rc.op)
+				if len(f) < 2 || strings.Contains(f[1], ",") || atoi(f[1]) != 1 || f[0] == "load" || f[0] == "refresh" {
+					continue
+				}
+				installed := false
+				for _, lc := range r.Loads {
+					if containsKey(lc.Keys, 1) && lc.Exit < rc.ret && lc.Err == "" {
+						installed = true // the load's value may have been installed before this operation returned
+					}
+				}
+				if installed || rc.res.Panic != "" {
+					continue
+				}
+				x.Count("ops-on-expired-during-load")
+				bad := false
+				switch f[0] {
+				case "get", "gete", "getq", "cc", "ciac", "cipc", "cipw", "cipi", "inv":
+					bad = rc.res.OK
+				case "set", "cw", "cia", "sia":
+					bad = !rc.res.OK || rc.res.Val != rc.res.Int
+				}
+				if f[0] == "cc" || f[0] == "cw" || f[0] == "ci" {
+					bad = bad || rc.res.SawOK
+				}
+				if bad {
+					x.Fail("expired-observed", opName(rc.op)+"@"+p.Label, "%q ran on an expired-but-unswept key while a load of it was still in flight and returned %s: the expired entry was observed", rc.op, rc.res.String())
 				}
 			}
 		}
